@@ -85,7 +85,7 @@ def harnesses(tier):
                 body = ("S = shapes(i, n)\nfor y in S:\n    if not call_ok(eb._builtin_%s, [S[%d], y]):\n        return False\nreturn True"
                         % (name, f))
             else:
-                zs = "S" if tier == "thorough" else "S[::3]"
+                zs = "S" if tier == "thorough" else "(S[::3] + [S[7]])"
                 body = ("S = shapes(i, n)\nfor y in S:\n    for z in %s:\n        if not call_ok(eb._builtin_%s, [S[%d], y, z]):\n"
                         "            return False\nreturn True" % (zs, name, f))
             src = 'def h_%d(i: int, n: int) -> bool:\n    """\n    pre: -2 <= i <= 2 and n == 0\n    post: _\n    """\n%s\n' % (
